@@ -89,6 +89,84 @@ def fids_of(pr):
         db.close()
 
 
+def _outcome(pr, names):
+    return {n: pr.read(n) for n in names}
+
+
+def late_declaration_family(viol, stats):
+    """A script that does its slow work BEFORE declaring its dependencies (the `cc -MD …; redo-ifchange $(cat deps)` idiom):
+    while it runs, its old dependency rows are only flagged, not yet re-declared.  A second branch that reaches the target
+    through an intermediate one during that window must still come out as in the serial build: all -> a -> x -> src and
+    all -> b -> y -> x, first build, edit src, two more builds, at -j1 and at -j4."""
+    res = {}
+    for j in ("-j1", "-j4"):
+        pr = Project()
+        try:
+            pr.write("src", "version-one\n")
+            pr.write("x.do", "sleep 0.8\nredo-ifchange src\ncat src\n")
+            pr.write("y.do", "redo-ifchange x\nsed 's/^/y:/' x\n")
+            pr.write("a.do", "redo-ifchange x\nsed 's/^/a:/' x\n")
+            pr.write("b.do", "sleep 0.3\nredo-ifchange y\nsed 's/^/b:/' y\n")
+            pr.write("all.do", "redo-ifchange a b\n")
+            rcs = []
+            rcs.append(sched.run_cmds(pr, [["redo", j, "all"]], timeout=60)[0].rc)
+            pr.write("src", "version-two-longer\n")
+            rcs.append(sched.run_cmds(pr, [["redo", j, "all"]], timeout=60)[0].rc)
+            rcs.append(sched.run_cmds(pr, [["redo", j, "all"]], timeout=60)[0].rc)
+            stats["builds"] += 3
+            res[j] = (rcs, _outcome(pr, ["x", "y", "a", "b"]), db_abstract(pr))
+        finally:
+            pr.destroy()
+    if res["-j1"][:2] != res["-j4"][:2]:
+        bad = [k for k in res["-j1"][1] if res["-j1"][1][k] != res["-j4"][1][k]]
+        p = write_replay("C07", "late-declaration", dict(kind="impl-monitor", scenario="x.do: sleep; redo-ifchange src; cat src.  a -> x, b -> y -> x (b starts a little later).  build, edit src, build, build",
+                                                          serial=dict(rcs=res["-j1"][0], contents={k: repr(v) for k, v in res["-j1"][1].items()}),
+                                                          parallel=dict(rcs=res["-j4"][0], contents={k: repr(v) for k, v in res["-j4"][1].items()})))
+        viol.append(Violation("C07", p, "a target that declares its dependencies after its slow work, requested from two branches: redo -j4 leaves %s different from the serial build (statuses %s vs %s)" % (bad, res["-j4"][0], res["-j1"][0])))
+    stats["directed"] = stats.get("directed", 0) + 1
+
+
+def keep_going_locked_sibling_family(viol, stats):
+    """--keep-going with a failing target and, in the same command, a target that another job is building at the moment:
+    the command must still report the failure (same status class as the serial build, the dependent not built), and its
+    job events must pass the ParF acceptor (a command returns 0 only if nothing it named has failed)."""
+    res = {}
+    for j in ("-j1", "-j4"):
+        pr = Project()
+        try:
+            pr.write("bad.do", "echo failing on purpose >&2\nexit 1\n")
+            pr.write("shared.do", "sleep 0.9\necho shared-content\n")
+            pr.write("other.do", "redo-ifchange shared\nsed 's/^/other:/' shared\n")
+            pr.write("prod.do", "sleep 0.3\nredo-ifchange bad shared\nsed 's/^/prod:/' shared\n")
+            pr.write("all.do", "redo-ifchange other prod\n")
+            r = sched.run_cmds(pr, [["redo", "-k", j, "all"]], timeout=60)[0]
+            stats["builds"] += 1
+            dbn = {"all": ["other", "prod"], "other": ["shared"], "prod": ["bad", "shared"], "shared": [], "bad": []}
+            pans, pev, pgraph = par_replay(r.trace, dbn, fids_of(pr), failing=["bad"], keep_going=True)
+            res[j] = dict(rc=r.rc, present={n: pr.read(n) is not None for n in ("shared", "other", "prod", "bad")}, par=pans, events=pev, graph=pgraph, timed_out=r.timed_out)
+        finally:
+            pr.destroy()
+    a, b = res["-j1"], res["-j4"]
+    problems = []
+    for j, x in res.items():
+        if x["timed_out"]:
+            problems.append("redo -k %s all did not finish" % j)
+        if not x["par"].startswith("ok"):
+            problems.append("redo -k %s all: job events rejected by the ParF acceptor: %s" % (j, x["par"]))
+        elif (int(re.search(r"status=(\d)", x["par"]).group(1)) == 0) != (x["rc"] == 0):
+            problems.append("redo -k %s all: exit status %d but the accepted events give status class %s" % (j, x["rc"], re.search(r"status=(\d)", x["par"]).group(1)))
+    if (a["rc"] == 0) != (b["rc"] == 0):
+        problems.append("exit status %d at -j4, %d serially" % (b["rc"], a["rc"]))
+    if a["present"] != b["present"]:
+        problems.append("built files differ from the serial build: %r vs %r" % (b["present"], a["present"]))
+    if b["rc"] == 0 or b["present"]["prod"]:
+        problems.append("the failure of `bad` was lost: status %d, prod built: %s" % (b["rc"], b["present"]["prod"]))
+    if problems:
+        p = write_replay("C07", "keep-going-locked", dict(kind="impl-monitor+trace", scenario="all -> other -> shared (slow); all -> prod -> {bad (fails), shared}; redo -k all", results=res, problems=problems))
+        viol.append(Violation("C07", p, "--keep-going with a failing target beside a locked one: " + "; ".join(problems[:3])))
+    stats["directed"] = stats.get("directed", 0) + 1
+
+
 def run(ctx):
     rng = random.Random(ctx["seed"] * 29 + 7)
     viol = ctx.setdefault("violations", [])
@@ -206,6 +284,10 @@ def run(ctx):
                 break
         if len(samples) < 2:
             samples.append(dict(graph={a: d["deps"] for a, d in g.items()}, variants=[" ".join(v) for v in variants], serial_counts=base[0]["counts"]))
+    if not viol:
+        late_declaration_family(viol, stats)
+    if not viol:
+        keep_going_locked_sibling_family(viol, stats)
     return dict(evaluations=stats["builds"], distinct_nontrivial=stats["projects"],
                 rule="seeded random graphs of 4-12 targets (chains, diamonds, fans, layers; checksummed and always targets; 25% with failing scripts; script durations 0-120 ms) each built from scratch and rebuilt after a leaf change in fresh copies with -j1, -jN, -jN --shuffle, -j1 --shuffle; every run's job events replayed through the Lean acceptor Once.step; outcomes compared with the serial build; distinct = projects",
                 samples=samples, traces_validated_against_impl=stats["builds"], distribution=stats)
